@@ -13,14 +13,14 @@
    moment the consumer stopped.  Hence, for the fragment of Props_C01.v: for every stop
    point j, the compiled generator stopped after j values has run exactly the user
    code the source coroutine has run (same world, whatever the world records), and
-   every value is delivered in the same world as in the source.  Missing: for /
-   switch / range in the fragment; the optimiser; and the link between the big-step
-   reading of the seq combinators in Sem.v and the seq machine of Props_C08.v, which
-   is validated by the behavioural correspondence (CExec.v vs the real runtime) and
-   not proved.  That nothing runs before the first MoveNext is a property of
-   Start/Delay in the runtime (Props_C08.v, C09) and of the differential check. *)
+   every value is delivered in the same world as in the source.  The same holds on the
+   MACHINE model of seq.go (C02_machine_lockstep_partial, through Link.v / LinkMachine.v):
+   the consumer's loop over MoveNext / Current stops in the world in which the source
+   coroutine stops.  Starting the generator runs no user code on the machine
+   (C02_start_runs_nothing: Start only allocates), so nothing of the body runs before
+   the first MoveNext.  Missing: the optimiser (C07); range / YieldFrom as syntax. *)
 From Coq Require Import List Arith.
-From Verif Require Import Base Syntax Sem Rewrite Side C01Main.
+From Verif Require Import Base Syntax Sem Rewrite Side C01Main SeqMachine Protocol Link LinkMachine.
 Import ListNotations.
 
 (* every consumer, every stop point: same world at the stop *)
@@ -80,3 +80,39 @@ Proof.
   cbv zeta. split; [vm_compute; reflexivity|]. split; [vm_compute; reflexivity|].
   intros out H. vm_compute in H. injection H as <-. vm_compute. reflexivity.
 Qed.
+
+(* ---- on the machine model of seq/seq.go ---- *)
+
+(* Start(s) allocates the generator object and its co cell; no thunk, condition or post statement is
+   called and the world is untouched, for every term s (in particular Delay(func() Seq { body })) *)
+Theorem C02_start_runs_nothing :
+  forall (U V P : Type) (zeroV : V) (s : seqv U V P) (m : st U V P),
+    world (fst (start zeroV s m)) = world m.
+Proof. intros U V P zeroV s m. exact (proj1 (proj2 (start_grel zeroV s m))). Qed.
+Print Assumptions C02_start_runs_nothing.
+
+(* lock step at every stop point, on the machine: if the source coroutine, driven by a consumer
+   that stops after some value, stops in world w (w also counts the values delivered), then the
+   consumer's MoveNext / Current loop over the generator object of the machine stops in w *)
+Theorem C02_machine_lockstep_partial :
+  forall (U V P : Type)
+         (aden : nat -> U -> outcome U P unit) (cden : nat -> U -> outcome U P bool)
+         (tden : nat -> U -> outcome U P nat) (kval : nat -> nat) (yden : nat -> U -> outcome U P V)
+         (env : nat -> V -> U -> U * bool) (zeroV : V)
+         (body : list stmt),
+    c01_hyps body = true ->
+    exists out, rewrite body = OK out /\
+      (forallb (lk KS) out = true ->
+       forall n u w,
+         run_source aden cden tden kval yden env n body u = Some (FStopped w) ->
+         exists M, forall N F, M <= N -> M <= F ->
+           machine_target U V P aden cden tden kval yden env zeroV KS out u N F = Some (FStopped w)).
+Proof.
+  intros U V P aden cden tden kval yden env zeroV body Hh.
+  destruct (compiler_correct_hyps U V P aden cden tden kval yden env body Hh) as [out [Ho Hsim]].
+  exists out. split; [exact Ho|]. intros Hlk n u w Hs.
+  assert (Hns : FStopped w <> (@FStuck U P)) by discriminate.
+  destruct (Hsim n u (FStopped w) Hs Hns) as [m Hm].
+  exact (machine_link U V P aden cden tden kval yden env zeroV KS out m u (FStopped w) Hlk Hm Hns).
+Qed.
+Print Assumptions C02_machine_lockstep_partial.
